@@ -33,6 +33,7 @@ int MPI_Comm_rank(MPI_Comm comm, int* rank);
 int MPI_Comm_size(MPI_Comm comm, int* size);
 int MPI_Allreduce(void const* sendbuf, void* recvbuf, int count, MPI_Datatype datatype, MPI_Op op,
     MPI_Comm comm);
+int MPI_Bcast(void* buffer, int count, MPI_Datatype datatype, int root, MPI_Comm comm);
 int MPI_Barrier(MPI_Comm comm);
 
 #endif
